@@ -1,6 +1,6 @@
 SPECIFICATION Spec
 CONSTANTS
-  InnerMtus <- MtuSet
+  InnerMtus <- MtuSetQ
   Bases <- BaseV
   TopLayers <- AllLayers
   LowLayers <- AllLayers
